@@ -95,3 +95,10 @@ Theorem svg_oracle_uw_is_translated ceil84 minw s :
   forallb uw_is_char s = true ->
   g_uw_str_trait_width s = Some (svg_o_uw (svg_uw_oracle ceil84 minw) s).
 Proof. exact (uw_width_is_translated_chars s). Qed.
+
+(* the model the correspondence driver runs for case kind svgraw IS the translated render_svg, under the one
+   remaining parameter instantiated with ceil(42 x / 5) *)
+Theorem translated_render_svg_is_driver_model palette fg bg background minw input :
+  g_svg_render (svg_uw_oracle svg_ceil84_exact minw) (mkSvgTerm palette fg bg background) input =
+  svg_m_render_uw palette fg bg background minw input.
+Proof. unfold svg_m_render_uw. apply translated_render_svg_uw. Qed.
